@@ -16,7 +16,8 @@
 //! built runtime on the same continuation), exactly as the statement words it; the cycle counter
 //! is not compared at all (the statement does not list it).
 //!
-//! Bounds: history depth 4 (quick) / 8 (thorough; the design asked for 6, 8 costs < 1 min), plus a
+//! Bounds: history depth 4 (quick) / 7 (thorough; the design asked for 6; 8 completes in ~2 min on
+//! 16 idle cores but comes close to the wall cap on a loaded machine), plus a
 //! look-ahead of every continuation "write inputs, cycle, [write through access paths], write
 //! inputs, cycle" over 2 input vectors after every history that ends in a restart. Declared
 //! initial values are spaced so that they stay pairwise distinct for 10 cycles.
@@ -47,6 +48,13 @@
 //!  * Value type tags are ignored everywhere (C03's business): integers compare by value.
 //!  * The %Q image is compared with a fresh runtime only after the first continuation cycle; the
 //!    %I image is environment and never compared.
+//! Retain store: a FileRetainStore is configured ONCE when a runtime is created (same path for the
+//! whole history, as the launcher does); `power` = save_retain_store() exactly as the resource
+//! loop does at stop (no mark_retain_dirty, no re-configuration) -> brand-new runtime from the same
+//! sources, store on the SAME path -> load_retain_store(). `operator-write` changes a RETAIN global
+//! (through its VAR_ACCESS path) and a program-level RETAIN variable (storage API) without a scan
+//! cycle, so that [cycle,power,cold,power] and [cycle,power,operator-write,power] (retained data
+//! changed since the last save without any cycle) are inside the quick bound.
 //! Left out of the alphabet: `restart_with_retain(Cold)` / the resource loop's
 //! "restart then load_retain_store" (whether a cold start with a retain file present must ignore
 //! the file is not derivable from the statement); array/struct initialisers (not supported by
@@ -380,6 +388,9 @@ enum Ev {
     Fault,
     /// only used inside continuations: write a sentinel through every READ_WRITE access path
     AccessWrite,
+    /// operator write: a recognisable value is put into a RETAIN global (through its VAR_ACCESS
+    /// path) and into a program-level RETAIN variable (storage API) WITHOUT a scan cycle
+    OpWrite,
 }
 
 impl Ev {
@@ -392,6 +403,7 @@ impl Ev {
             Ev::Power => "power".into(),
             Ev::Fault => "fault".into(),
             Ev::AccessWrite => "access-write".into(),
+            Ev::OpWrite => "operator-write".into(),
         }
     }
     fn parse(s: &str) -> Option<Ev> {
@@ -404,6 +416,7 @@ impl Ev {
             "power" => Ev::Power,
             "fault" => Ev::Fault,
             "access-write" => Ev::AccessWrite,
+            "operator-write" => Ev::OpWrite,
             _ => return None,
         })
     }
@@ -426,6 +439,8 @@ struct Family {
     tasks: Vec<String>,
     /// (access name, target variable path, binding kind)
     access: Vec<(String, String, String)>,
+    /// operator-write targets: (variable path, access path to write through | None = storage API)
+    op_writes: Vec<(String, Option<String>)>,
     events: Vec<Ev>,
 }
 
@@ -602,7 +617,7 @@ fn family_matrix(quals: &[Qual]) -> Family {
         }
         src.push_str("END_VAR\n");
     }
-    src.push_str("TASK T20 (INTERVAL := T#20ms, PRIORITY := 1);\nPROGRAM P1 : Main;\nPROGRAM P2 WITH T20 : Tick;\nPROGRAM RETAIN P3 : Aux;\nEND_RESOURCE\nEND_CONFIGURATION\n");
+    src.push_str("TASK T20 (INTERVAL := T#20ms, PRIORITY := 1);\nPROGRAM P1 : Main;\nPROGRAM P2 WITH T20 : Tick;\nPROGRAM RETAIN P3 : Aux;\nEND_RESOURCE\nVAR_ACCESS\n    A_cr : cfg_r_int : INT READ_WRITE;\nEND_VAR\nEND_CONFIGURATION\n");
 
     // PROGRAM Main
     src.push_str("\nPROGRAM Main\n");
@@ -702,8 +717,9 @@ fn family_matrix(quals: &[Qual]) -> Family {
         in_bits: vec!["%IX0.0".into(), "%IX0.1".into()],
         in_words: vec!["%IW2".into()],
         tasks: vec!["T20".into()],
-        access: vec![],
-        events: vec![Ev::Cycle, Ev::Write(0), Ev::Write(1), Ev::Warm, Ev::Cold, Ev::Power, Ev::Fault],
+        access: vec![("A_cr".into(), "cfg_r_int".into(), "access:global-var".into())],
+        op_writes: vec![("cfg_r_int".into(), Some("A_cr".into())), ("P1.pr_r_int".into(), None)],
+        events: vec![Ev::Cycle, Ev::Write(0), Ev::Write(1), Ev::Warm, Ev::Cold, Ev::Power, Ev::Fault, Ev::OpWrite],
     }
 }
 
@@ -825,6 +841,7 @@ END_CONFIGURATION
             ("A_av".into(), "P1.av".into(), "access:program-var".into()),
             ("A_gc".into(), "gc".into(), "access:global-var".into()),
         ],
+        op_writes: vec![],
         events: vec![Ev::Cycle, Ev::Write(0), Ev::Write(1), Ev::Warm, Ev::Cold, Ev::Power, Ev::Fault],
     }
 }
@@ -876,6 +893,7 @@ END_CONFIGURATION
         in_words: vec![],
         tasks: vec![],
         access: vec![],
+        op_writes: vec![],
         // no power cycle here: the loss of program-level RETAIN in a power cycle is the matrix family's finding
         events: vec![Ev::Cycle, Ev::Warm, Ev::Cold],
     }
@@ -934,6 +952,7 @@ END_PROGRAM
         in_words: vec![],
         tasks: vec!["Ev".into()],
         access: vec![],
+        op_writes: vec![],
         events: vec![Ev::Cycle, Ev::Warm, Ev::Cold, Ev::Power],
     }
 }
@@ -977,6 +996,7 @@ END_PROGRAM
         in_words: vec![],
         tasks: vec![],
         access: vec![],
+        op_writes: vec![],
         events: vec![Ev::Cycle, Ev::Warm, Ev::Cold, Ev::Power],
     }
 }
@@ -1160,6 +1180,7 @@ fn scratch_file() -> PathBuf {
         }
         g.clone().unwrap()
     };
+    let _ = std::fs::create_dir_all(&dir);
     dir.join(format!("retain-{}.bin", FILE_SEQ.fetch_add(1, Ordering::Relaxed)))
 }
 
@@ -1281,6 +1302,22 @@ fn build(fam: &Family) -> Result<TestHarness, String> {
     }
 }
 
+/// The retain store is configured ONCE, when a runtime is created, on a path that stays the same
+/// for the whole history (as the launcher does: set_retain_store before the first cycle).
+fn configure_store(h: &mut TestHarness, path: &std::path::Path) {
+    h.runtime_mut().set_retain_store(Some(Box::new(FileRetainStore::new(path))), Some(Duration::from_millis(1000)));
+}
+
+struct RemoveOnDrop(PathBuf);
+
+impl Drop for RemoveOnDrop {
+    fn drop(&mut self) {
+        let _ = std::fs::remove_file(&self.0);
+    }
+}
+
+const OP_VALUE: i16 = 7777;
+
 fn apply_update(fam: &Family, model: &mut BTreeMap<String, MVal>, i: usize) {
     let v = &fam.vars[i];
     let get = |m: &BTreeMap<String, MVal>, p: &str| m.get(p).cloned().unwrap_or(MVal::Other("?".into()));
@@ -1317,6 +1354,10 @@ fn run_trace(fam: &Family, events: &[Ev], report_from: usize) -> TraceOut {
             return out;
         }
     };
+    let store = RemoveOnDrop(scratch_file());
+    configure_store(&mut h, &store.0);
+    // what the previous power cycle of this history saved (model values), to name stale loads
+    let mut last_saved: Option<BTreeMap<String, MVal>> = None;
     let mut model: BTreeMap<String, MVal> = fam.vars.iter().map(|v| (v.path.clone(), v.init.clone())).collect();
     let s0 = snapshot(fam, &h);
     if s0.vars != model {
@@ -1371,6 +1412,38 @@ fn run_trace(fam: &Family, events: &[Ev], report_from: usize) -> TraceOut {
             }
             Ev::Fault => {
                 let _ = catch(|| h.runtime_mut().simulation_fault("c09"));
+                snap = snapshot(fam, &h);
+            }
+            Ev::OpWrite => {
+                for (path, via) in &fam.op_writes {
+                    let r = catch(|| -> Result<(), String> {
+                        match via {
+                            Some(name) => h.set_access(name, Value::Int(OP_VALUE)).map_err(|e| format!("write_access({name}) fails with {e:?}")),
+                            None => {
+                                let rt = h.runtime_mut();
+                                match path.split_once('.') {
+                                    Some((prog, var)) => {
+                                        let id = match rt.storage().get_global(prog) {
+                                            Some(Value::Instance(id)) => *id,
+                                            _ => return Err(format!("program instance {prog} not found")),
+                                        };
+                                        if rt.storage_mut().set_instance_var(id, var, Value::Int(OP_VALUE)) { Ok(()) } else { Err(format!("instance of {prog} vanished")) }
+                                    }
+                                    None => {
+                                        rt.storage_mut().set_global(path.as_str(), Value::Int(OP_VALUE));
+                                        Ok(())
+                                    }
+                                }
+                            }
+                        }
+                    });
+                    match r {
+                        Ok(Ok(())) => {}
+                        Ok(Err(e)) => anomaly(&mut finds, &mut out.machinery, "C09/binding/access:global-var".into(), format!("operator write to {path}: {e}")),
+                        Err(p) => finds.push(Finding { sig: format!("C09/panic/operator-write/{}", norm_msg(&p)), what: format!("operator write to {path} panicked: {p}"), step: i }),
+                    }
+                    model.insert(path.clone(), MVal::I(OP_VALUE as i128));
+                }
                 snap = snapshot(fam, &h);
             }
             Ev::AccessWrite => {
@@ -1490,20 +1563,19 @@ fn run_trace(fam: &Family, events: &[Ev], report_from: usize) -> TraceOut {
                         }
                     }
                     _ => {
-                        let path = scratch_file();
+                        // production flow: save exactly as the resource loop does at stop (no
+                        // mark_retain_dirty, no re-configuration), then a brand-new runtime with
+                        // the store on the SAME path, then load
+                        let path = store.0.clone();
                         let r = catch(|| -> Result<TestHarness, (String, String)> {
                             let rt = h.runtime_mut();
-                            rt.set_retain_store(Some(Box::new(FileRetainStore::new(&path))), None);
-                            rt.mark_retain_dirty();
                             rt.save_retain_store().map_err(|e| (format!("C09/power-cycle/save-error/{}", variant_name(&format!("{e:?}"))), format!("save_retain_store fails: {e:?}")))?;
                             let mut h2 = TestHarness::from_source(&fam.source).map_err(|e| ("machinery".to_string(), format!("rebuild failed: {e}")))?;
+                            configure_store(&mut h2, &path);
                             let rt2 = h2.runtime_mut();
-                            rt2.set_retain_store(Some(Box::new(FileRetainStore::new(&path))), None);
                             rt2.load_retain_store().map_err(|e| (format!("C09/power-cycle/load-error/{}", variant_name(&format!("{e:?}"))), format!("load_retain_store fails: {e:?}")))?;
-                            rt2.set_retain_store(None, None);
                             Ok(h2)
                         });
-                        let _ = std::fs::remove_file(&path);
                         match r {
                             Ok(Ok(h2)) => h = h2,
                             Ok(Err(f)) => failed = Some(f),
@@ -1539,7 +1611,7 @@ fn run_trace(fam: &Family, events: &[Ev], report_from: usize) -> TraceOut {
                             }
                         }
                         let is_init = |x: &MVal| inits.contains(x);
-                        let allowed: Vec<MVal> = match class {
+                        let mut allowed: Vec<MVal> = match class {
                             Class::Keep => vec![p.clone()],
                             Class::Reset => inits.clone(),
                             Class::Ambiguous => {
@@ -1548,6 +1620,7 @@ fn run_trace(fam: &Family, events: &[Ev], report_from: usize) -> TraceOut {
                                 a
                             }
                         };
+                        allowed.dedup();
                         if !is_init(&p) {
                             det.insert(j);
                         }
@@ -1588,7 +1661,9 @@ fn run_trace(fam: &Family, events: &[Ev], report_from: usize) -> TraceOut {
                             model.insert(v.path.clone(), real);
                             continue;
                         }
+                        let stale = ev == Ev::Power && real != p && last_saved.as_ref().and_then(|m| m.get(&v.path)) == Some(&real);
                         let kind = match (ev, class) {
+                            (Ev::Power, _) if stale => "stale-snapshot",
                             (Ev::Cold, _) => if real == p { "kept" } else { "wrong-value" },
                             (_, Class::Keep) => if is_init(&real) { "lost" } else { "wrong-value" },
                             (_, Class::Reset) => if real == p { "kept-non-retain" } else { "wrong-value" },
@@ -1597,7 +1672,7 @@ fn run_trace(fam: &Family, events: &[Ev], report_from: usize) -> TraceOut {
                         mism.push((
                             format!("{clause}/{kind}"),
                             j,
-                            format!("{} ({}) is {} but must be {}; before: {}, declared initial: {}", v.path, v.feature(), show(&real), allowed.iter().map(show).collect::<Vec<_>>().join(" or "), show(&p), show(&v.init)),
+                            format!("{} ({}) is {} but must be {}; before: {}, declared initial: {}{}", v.path, v.feature(), show(&real), allowed.iter().map(show).collect::<Vec<_>>().join(" or "), show(&p), show(&v.init), if stale { " — this is the value saved by an EARLIER power cycle of the history: the save of this power cycle did not reach the store" } else { "" }),
                         ));
                         // resynchronise: one defect is reported once along a trace
                         model.insert(v.path.clone(), real);
@@ -1611,6 +1686,9 @@ fn run_trace(fam: &Family, events: &[Ev], report_from: usize) -> TraceOut {
                     }
                     if ev == Ev::Cold && was_faulted {
                         out.stats.cold_with_fault_latched += 1;
+                    }
+                    if ev == Ev::Power {
+                        last_saved = Some(pre.clone());
                     }
                 }
                 last_disruption = Some(ev);
@@ -1658,6 +1736,12 @@ fn run_trace(fam: &Family, events: &[Ev], report_from: usize) -> TraceOut {
         let clauses: BTreeSet<String> = mism.iter().map(|m| m.0.clone()).collect();
         for c in clauses {
             let failing: BTreeSet<usize> = mism.iter().filter(|m| m.0 == c).map(|m| m.1).collect();
+            if c.ends_with("/stale-snapshot") {
+                // the cause is the save that did not reach the store, not the kind of variable
+                let detail = mism.iter().find(|m| m.0 == c).map(|m| m.2.clone()).unwrap_or_default();
+                finds.push(Finding { sig: format!("C09/{c}"), what: format!("after [{}]: {detail} ({} variable(s) affected)", hist_str(prefix), failing.len()), step: i });
+                continue;
+            }
             for (feat, w) in aggregate(fam, &failing, &det) {
                 let detail = mism.iter().find(|m| m.0 == c && m.1 == w).map(|m| m.2.clone()).unwrap_or_default();
                 finds.push(Finding {
@@ -1689,7 +1773,9 @@ fn run_trace(fam: &Family, events: &[Ev], report_from: usize) -> TraceOut {
         }
     }
     let last = out.snaps.last().unwrap();
-    out.key = Some(hash128(&format!("{last:?}|{model:?}")));
+    // the content of the retain file is state too (it decides what a later power cycle loads)
+    let file = std::fs::read(&store.0).ok();
+    out.key = Some(hash128(&format!("{last:?}|{model:?}|{file:?}")));
     out
 }
 
@@ -1880,6 +1966,10 @@ pub fn check_case(case: &J) -> Vec<Violation> {
     for m in &out.machinery {
         eprintln!("C09 replay: machinery note: {m}");
     }
+    // replay has no Ctx/finish(): leave no empty scratch directory behind
+    if let Some(d) = SCRATCH.lock().unwrap().as_ref() {
+        let _ = std::fs::remove_dir(d);
+    }
     out.violations
 }
 
@@ -1889,7 +1979,7 @@ pub fn run(ctx: &Ctx) -> EngineResult {
     let mut rep = Report::new("model_checking");
     let deadline = Instant::now() + StdDuration::from_secs(ctx.tier.pick(36, 840));
     // TV_C09_DEPTH: experimentation knob only (the tiers fix the bound)
-    let max_depth = std::env::var("TV_C09_DEPTH").ok().and_then(|s| s.parse().ok()).unwrap_or(ctx.tier.pick(4usize, 8usize));
+    let max_depth = std::env::var("TV_C09_DEPTH").ok().and_then(|s| s.parse().ok()).unwrap_or(ctx.tier.pick(4usize, 7usize));
     let stack = 16 << 20;
 
     // PERSISTENT is a vendor extension: use it if the compiler accepts it everywhere
